@@ -1372,7 +1372,7 @@ def frag_num(rng, d, div="all"):
         n = rng.choice([1, 2, 2, 3])
         if rng.random() < 0.6:
             value = None
-            whens = [[frag_bool(rng, min(d - 1, 2), div), frag_num(rng, d - 1, div)] for _ in range(n)]
+            whens = [[frag_bool(rng, min(d - 1, 2), div, "str" if div == "floor" else "all"), frag_num(rng, d - 1, div)] for _ in range(n)]
         else:
             value = frag_num(rng, d - 1, div)
             whens = [[frag_num(rng, min(d - 1, 1), div), frag_num(rng, d - 1, div)] for _ in range(n)]
@@ -1380,14 +1380,31 @@ def frag_num(rng, d, div="all"):
     return [k, frag_num(rng, d - 1, div), frag_num(rng, d - 1, div)]
 
 
-def frag_bool(rng, d, div="all"):
+def frag_str(rng, d, div="all", opnds="all"):
+    """string-valued tree of the Lean fragment StrU: string columns / literals and concatenations;
+    opnds="all": an operand of a concatenation may be a numeric tree (finding F1's cells on SQLite)"""
+    if d <= 0 or rng.random() < 0.3:
+        return ["col", rng.choice(["sa", "sb"])] if rng.random() < 0.6 else ["ls", rng.choice(STR_LITS)]
+
+    def opnd():
+        if opnds == "all" and rng.random() < 0.3:
+            return frag_num(rng, d - 1, div)
+        return frag_str(rng, d - 1, div, opnds)
+    return ["concat", opnd(), opnd()]
+
+
+def frag_bool(rng, d, div="all", opnds="all"):
     """boolean tree of the Lean fragment BoolU (without is_/is_not between general operands)"""
     if d <= 0 or rng.random() < 0.25:
         x = rng.random()
         if x < 0.2:
             return [rng.choice(["eq", "ne", "is", "isnot"]), frag_num(rng, 1, div), ["null"]]
+        if x < 0.4:
+            if rng.random() < 0.2:
+                return [rng.choice(["eq", "ne", "is", "isnot"]), frag_str(rng, 1, div, opnds), ["null"]]
+            return [rng.choice(CMP), frag_str(rng, rng.randint(0, 2), div, opnds), frag_str(rng, rng.randint(0, 2), div, opnds)]
         return [rng.choice(CMP), frag_num(rng, rng.randint(0, 2), div), frag_num(rng, rng.randint(0, 2), div)]
     k = rng.choice(["and", "or", "not", "and", "or"])
     if k == "not":
-        return ["not", frag_bool(rng, d - 1, div)]
-    return [k, [frag_bool(rng, d - 1, div) for _ in range(rng.choice([1, 2, 2, 3]))]]
+        return ["not", frag_bool(rng, d - 1, div, opnds)]
+    return [k, [frag_bool(rng, d - 1, div, opnds) for _ in range(rng.choice([1, 2, 2, 3]))]]
